@@ -992,3 +992,84 @@ func collectVars(ts []*Term) []*Term {
 	sort.Slice(out, func(i, j int) bool { return out[i].Name < out[j].Name })
 	return out
 }
+
+// EvalUnder substitutes model values for variables and re-simplifies; the result is a constant when t depends
+// only on scalar variables present in the model (no uninterpreted functions, no array variables).
+func (c *Ctx) EvalUnder(t *Term, model map[string]uint64, memo map[int]*Term) *Term {
+	if t.Op == OpConst {
+		return t
+	}
+	if r, ok := memo[t.ID]; ok {
+		return r
+	}
+	var r *Term
+	switch t.Op {
+	case OpVar:
+		v, ok := model[t.Name]
+		if !ok || t.S.K == SArr || (t.S.K == SBV && t.S.W > 64) {
+			r = t
+		} else if t.S.K == SBool {
+			r = c.Bool(v != 0)
+		} else {
+			r = c.BV(t.S.W, v)
+		}
+	default:
+		args := make([]*Term, len(t.Args))
+		changed := false
+		for i, a := range t.Args {
+			args[i] = c.EvalUnder(a, model, memo)
+			if args[i] != a {
+				changed = true
+			}
+		}
+		if !changed {
+			r = t
+		} else {
+			r = c.rebuild(t, args)
+		}
+	}
+	memo[t.ID] = r
+	return r
+}
+
+func (c *Ctx) rebuild(t *Term, a []*Term) *Term {
+	switch t.Op {
+	case OpNot:
+		return c.Not(a[0])
+	case OpAnd:
+		return c.And(a[0], a[1])
+	case OpOr:
+		return c.Or(a[0], a[1])
+	case OpEq:
+		return c.Eq(a[0], a[1])
+	case OpIte:
+		return c.Ite(a[0], a[1], a[2])
+	case OpAdd, OpSub, OpMul, OpUDiv, OpURem, OpSDiv, OpSRem, OpBAnd, OpBOr, OpBXor, OpShl, OpLShr, OpAShr:
+		return c.binBV(t.Op, a[0], a[1])
+	case OpBNot:
+		return c.BNot(a[0])
+	case OpNeg:
+		return c.Neg(a[0])
+	case OpULT, OpULE, OpSLT, OpSLE:
+		return c.cmp(t.Op, a[0], a[1])
+	case OpConcat:
+		return c.Concat(a[0], a[1])
+	case OpExtract:
+		return c.Extract(a[0], t.X1, t.X2)
+	case OpZExt:
+		return c.ZExt(a[0], t.X1)
+	case OpSExt:
+		return c.SExt(a[0], t.X1)
+	case OpSelect:
+		return c.Select(a[0], a[1])
+	case OpStore:
+		return c.Store(a[0], a[1], a[2])
+	case OpConstArr:
+		return c.ConstArr(t.S.W, a[0])
+	case OpFPLt, OpFPLe, OpFPEq:
+		return c.FPCmp(t.Op, a[0], a[1])
+	case OpFPIsNaN:
+		return c.FPIsNaN(a[0])
+	}
+	return c.mk(t.Op, t.S, a, t.Val, t.X1, t.X2, t.Name)
+}
